@@ -360,6 +360,14 @@ func init() {
 	}
 
 	gens["C16"] = func(g *G) {
+		// key sets of several hundred thousand keys (a chunked or parallel FirstDiffBits must not lose the pair that
+		// straddles two chunks): evaluated on the real code against a per-pair reference
+		for _, n := range []int{70001, 300007, 1<<20 + 7} {
+			g.emit("fdbprobe %d %d", n, g.intn(1000))
+		}
+		if g.thorough() {
+			g.emit("fdbprobe %d %d", 1<<22+3, g.intn(1000))
+		}
 		emitSet := func(keys [][]byte, allRanges bool) {
 			if len(keys) == 0 {
 				return
@@ -467,7 +475,7 @@ func init() {
 					add(s0+d[0], e0^65536)
 					add(s0, e0)
 				}
-				add(s0+1, (e0^(1<<16)))
+				add(s0+1, (e0 ^ (1 << 16)))
 				add(s0+1, e0+1<<16)
 				add(e0, e0+(e0-s0))
 				add(s0, e0)
